@@ -427,6 +427,19 @@ def main(argv=None):
     for label, v, text in structure_instances(rng, run.thorough):
         feed('structure-instance', label, [('instance', text)],
              combos=None if run.thorough else [(TOLERANT, True), (STRICT, True), (TOLERANT, False)])
+    # every field of a segment valued: each table row (datatype, table, length) is reached by parse, encode and validate
+    import hl7apy
+    for v in versions():
+        lib = hl7apy.load_library(v)
+        segs = [sn for sn in sorted(lib.SEGMENTS) if sn not in ('MSH', 'ANYHL7SEGMENT') and isinstance(lib.SEGMENTS[sn], tuple)
+                and len(lib.SEGMENTS[sn]) > 1 and lib.SEGMENTS[sn][1]]
+        common = [sn for sn in ('PID', 'PV1', 'OBX', 'NK1', 'EVN', 'OBR', 'ORC', 'AL1', 'DG1', 'IN1', 'GT1') if sn in segs]
+        chosen = segs if run.thorough else common + rng.sample([x for x in segs if x not in common], min(12, len(segs)))
+        head = 'MSH|^~\\&|A|B|C|D|20200101||ADT^A01%s|1|P|%s' % ('^ADT_A01' if v >= '2.3.1' else '', v)
+        for sn in chosen:
+            n = len(lib.SEGMENTS[sn][1])
+            feed('all-fields', '%s/%s' % (v, sn), [('all-fields', head + '\r' + sn + '|x' * n), ('all-fields-1', head + '\r' + sn + '|1' * n)],
+                 combos=[(TOLERANT, False)] if not run.thorough else [(TOLERANT, False), (TOLERANT, True), (STRICT, False)])
     feed('junk', 'none', junk(rng, 1500 if not run.thorough else 12000))
     run.log('oracle: %d inputs, %s; %d failures' % (len(seen), json.dumps({k: v for k, v in stats.items() if k != 'rejected_by'}),
                                                    len(run.failures)))
